@@ -157,6 +157,9 @@ func c06Exec(plan *Plan, st *Stats) *Violation {
 				invsBefore := h.nInvs()
 				r := h.Next(arg)
 				settle(bubble)
+				if h.releaseAuto() {
+					settle(bubble)
+				}
 				lastResp = &r
 				if r.Kind == rPanic {
 					viol = &Violation{Clause: "C06.unusable", OpIndex: len(plan.Ops) + k, Observed: r, Note: "Next panicked after an earlier error"}
